@@ -1,6 +1,7 @@
 import KM.Model.Admin
 import KM.Model.GoLite
 import KM.Gen.GoAdmin
+import KM.Model.GoTypes
 /-! # C08 — the administration predicates as TRANSLATED from the current source (go2lean)
 
 `isAutomationAdmin` and `isAutomationUser` (cmd/keymasterd) are translated statement by statement from /repo's
@@ -65,5 +66,37 @@ example : KM.Gen.GoAdmin.isAutomationAdmin (fun _ => false) ["robot".toList] "ro
     KM.Gen.GoAdmin.isAutomationAdmin (fun _ => false) ["robot".toList] "alice".toList = false ∧
     KM.Gen.GoAdmin.isAutomationUser (fun _ => (["ops".toList], none)) [] ["ops".toList] "svc".toList = (true, none) := by
   decide
+
+/-! ### `IsAdminUser`: the cache in front of the directory, as translated -/
+
+open KM.GoTypes in
+/-- **the admin cache, on the translated source**: a still-valid entry is the answer without asking the directory; an
+expired (or absent) one makes exactly one directory lookup, whose answer is returned and stored afresh; only when that
+lookup FAILS is the previous verdict returned (and re-stored) — for every behaviour of the cache and of the directory -/
+theorem c08_go_isAdminUser (ext : AdminCacheExt) (u : Name) :
+    KM.Gen.GoAdmin.IsAdminUser ext u =
+      match ext.cacheGet u with
+      | (cached, true) => (cached, [])
+      | (cached, false) =>
+        match ext.lookup u with
+        | (v, none) => (v, [AdminEffect.lookup u, AdminEffect.put u v])
+        | (_, some _) => (cached, [AdminEffect.lookup u, AdminEffect.put u cached]) := by
+  obtain ⟨cacheGet, lookup⟩ := ext
+  unfold KM.Gen.GoAdmin.IsAdminUser
+  dsimp -iota only
+  rcases cacheGet u with ⟨c, v⟩
+  cases v with
+  | true => rfl
+  | false =>
+    rcases hl : lookup u with ⟨nv, _ | e⟩ <;> simp [hl]
+
+open KM.GoTypes in
+/-- **a verdict older than the cache lifetime is re-evaluated when the directory answers**: with an expired entry and
+a directory that answers, what is returned is the directory's current verdict, never the stale one -/
+theorem c08_go_expired_reevaluated (ext : AdminCacheExt) (u : Name) (cached v : Bool)
+    (hc : ext.cacheGet u = (cached, false)) (hl : ext.lookup u = (v, none)) :
+    (KM.Gen.GoAdmin.IsAdminUser ext u).1 = v := by
+  rw [c08_go_isAdminUser, hc]
+  simp [hl]
 
 end KM.Admin
